@@ -1580,20 +1580,29 @@ PROPS['C05'] = dict(
 )
 
 PROPS['C17'] = dict(
-    module='FlacModel.Props.C17',
+    module='FlacModel.Props.C17b',
     theorems=['Flac.C17.layouts_agree', 'Flac.C17.readPartitions_length', 'Flac.C17.structLayout_sum', 'Flac.C17.readResidual_length',
-              'Flac.C17.predictGo_length', 'Flac.C17.struct_expand_len'],
+              'Flac.C17.predictGo_length', 'Flac.C17.struct_expand_len',
+              'Flac.C17.parse_reserializes', 'Flac.C17.struct_parse_reserializes', 'Flac.C17.parse_agrees_with_decoder',
+              'Flac.C17.decoder_accepts_implies_parser', 'Flac.readHeaderFields_sound', 'Flac.readSubframe_sound', 'Flac.readResidual_sound',
+              'Flac.crc8_pins', 'Flac.crc16_pins', 'Flac.C01.frame_roundtrip'],
     components=[StructCmp()],
     rule='900 (quick) / 40000 (thorough) valid frames and as many checksum-consistent malformed frames from the Lean generators, each given to stream::Frame::read_subset (+ write_subset '
          'and Subframe::decode) and to the streaming decoder; compared: accept/reject, expansion lengths, samples after undoing decorrelation (with the decoder\'s arithmetic width), and '
          're-serialised bytes when the coded number is minimal and padding/reserved bits are zero; both build profiles; the Lean model of both parsers must predict every field',
-    claim='layouts_agree: for EVERY block size, predictor order and partition order the two parsers slice the residuals identically and refuse the same orders (both layout rules are '
-          'extracted from the source: stream.rs read_partitions, decode.rs read_block); struct_expand_len: every subframe the structural parser accepts expands to exactly block-size '
-          'samples (lengths of warm-up, of every partition kind and of the prediction loop, for all inputs).',
-    note='Byte-identical re-serialisation and whole-frame accept/reject equivalence are decided by the correspondence on generated frames, not by a composed theorem; sample equality holds in '
-         'the model by construction (one expansion function) and is exhibited for the two Rust implementations.',
+    claim='struct_parse_reserializes (Proofs/CodecConv.lean, ~1000 lines: every bit-level reader is SOUND - what it accepts is its writer\'s output on a well-formed value followed by the '
+          'unread rest - for readU/readS/unary/Rice/partitions/residual/subframes of all four kinds/coded number/header; CRC pinning crc8_pins/crc16_pins: remainder 0 forces the stored checksum, '
+          'over the tables regenerated from crc.rs): for EVERY byte string, whatever the structural parser accepts with valid checksums is a well-formed frame whose serialization is exactly the bytes consumed. '
+          'parse_agrees_with_decoder: its samples (after undoing decorrelation) are what the streaming decoder returns for the same bytes, with the same extent, whatever follows the frame '
+          '(through C01.frame_roundtrip and frame locality). decoder_accepts_implies_parser: every frame the streaming decoder accepts the structural parser accepts, same header, extent and checksum verdicts. '
+          'layouts_agree: for EVERY block size, predictor order and partition order the two parsers slice the residuals identically and refuse the same orders (both layout rules are '
+          'extracted from the source); struct_expand_len: every accepted subframe expands to exactly block-size samples.',
+    note='The model serializer re-emits the stored coded-number length and padding bits, so the theorem needs no minimal-number/zero-padding caveat; the crate\'s writer always emits the minimal number and zero '
+         'padding, which is why the property carries that caveat - exhibited by the correspondence (re-serialised bytes compared exactly under that condition). The converse acceptance direction '
+         '(parser accepts => decoder accepts) holds up to arithmetic traps of sample expansion, which the structural parser does not perform: stated as parse_agrees_with_decoder with the expansion as hypothesis. '
+         'That stream.rs and decode.rs each follow the one parser skeleton instantiated with their own extracted layout rule is the correspondence\'s job.',
     trusted_base=COMMON_TRUST,
-    assumptions=[],
+    assumptions=['bytes are below 256 (they are u8 in the code)', 'bits-per-sample <= 32 (type invariant of SignedBitCount<32>)'],
 )
 
 PROPS['C14'] = dict(
